@@ -105,7 +105,13 @@ func check(id, tier, repo, verif string, noposex bool) (code int) {
 	run.Stats["module_functions"] = len(prog.ModuleFuncs())
 	spec.Run(run)
 	if tier == "thorough" {
-		vs := runVariants(id, repo, verif)
+		base := map[string]bool{}
+		for _, o := range run.Obls {
+			if !o.Armed && o.Status != core.Discharged {
+				base[o.Rule+"|"+o.Key] = true
+			}
+		}
+		vs := runVariants(id, repo, verif, base)
 		armed, applied := 0, 0
 		for _, v := range vs {
 			if v.Applied {
@@ -120,6 +126,11 @@ func check(id, tier, repo, verif string, noposex bool) (code int) {
 		run.Stats["variants_total"] = len(vs)
 		run.Stats["variants_applied"] = applied
 		run.Stats["variants_armed"] = armed
+		nr := runNeutral(id, repo, verif, base)
+		fmt.Printf("neutral refactorings: %d kept, %d apply to this tree, %d leave the check unchanged, %d false alarms %v\n", nr.Total, nr.Applied, nr.Silent, len(nr.FalseAlarms), nr.FalseAlarms)
+		run.Extras["neutral_refactorings"] = nr
+		run.Stats["neutral_applied"] = nr.Applied
+		run.Stats["neutral_silent"] = nr.Silent
 		if id == "C10" {
 			run.Extras["compiler_bce_cross_reference"] = bceCrossRef(run, repo, []string{"./tds/", "./asetypes/", "./asetime/"})
 		}
